@@ -87,9 +87,10 @@ def env():
 
 BE_VALID = ["numpy", "jax", "cupy", "pytorch"]
 BE_INST = ["numpy@1", "jax@1"]
-BE_BAD = ["bogus", "tensorflow"]  # unknown name / known name whose import fails here
+# rejected selections: unknown name / known name whose import fails here / a name that belongs to the OTHER manager
+BE_BAD = ["bogus", "tensorflow", "core", "einsum"]
 TA_VALID = ["core", "einsum"]
-TA_BAD = ["bogus"]
+TA_BAD = ["bogus", "numpy", "jax"]
 EXC_KINDS = ["Exception", "BaseException", "KeyboardInterrupt", "StopIteration", "GeneratorExit"]
 
 
@@ -276,22 +277,38 @@ class Run:
         return b
 
     def reset(self):
+        """Start-of-run state: shared defaults D0, name->instance caches cold or warm.
+
+        Uses the public API only, from a short-lived helper thread (so that the controller thread never
+        acquires a selection of its own); the one internal it touches, the `_loaded_backends` cache, is
+        emptied best-effort to exercise the cold loading path and is left alone if it is not a dict."""
+        import threading
+
         E = self.E
         BM, TM = E["BM"], E["TM"]
-        BM._loaded_backends.clear()
-        TM._loaded_backends.clear()
-        BM._THREAD_LOCAL_DATA.__dict__.clear()
-        TM._THREAD_LOCAL_DATA.__dict__.clear()
-        if self.cfg["warm"]:
-            for nm in BE_VALID:
-                BM.load_backend(nm)
-            for nm in TA_VALID:
-                TM.load_backend(nm)
-        E["tl"].set_backend(self.cfg["D0"]["be"])
-        E["tlt"].set_backend(self.cfg["D0"]["ta"])
-        # the controller thread must not keep a private selection that masks the default
-        BM._THREAD_LOCAL_DATA.__dict__.clear()
-        TM._THREAD_LOCAL_DATA.__dict__.clear()
+        err = []
+
+        def do():
+            try:
+                for M in (BM, TM):
+                    c = getattr(M, "_loaded_backends", None)
+                    if isinstance(c, dict):
+                        c.clear()
+                if self.cfg["warm"]:
+                    for nm in BE_VALID:
+                        BM.load_backend(nm)
+                    for nm in TA_VALID:
+                        TM.load_backend(nm)
+                E["tl"].set_backend(self.cfg["D0"]["be"])
+                E["tlt"].set_backend(self.cfg["D0"]["ta"])
+            except BaseException as e:  # noqa
+                err.append(e)
+
+        th = threading.Thread(target=do, name="sim-reset")
+        th.start()
+        th.join()
+        if err:
+            raise HarnessError(f"reset failed: {err[0]!r}") from err[0]
         n1 = E["tagged_numpy"]()
         j1 = E["stubs"]["jax"]()
         j1.tag = "jax@1"
@@ -324,10 +341,18 @@ class Run:
             k = op["op"]
             if k == "get":
                 h = self.invoke(t, "get", mgr=op["mgr"])
-                self.ret(h, self.mgr_mod(op["mgr"]).get_backend())
+                try:
+                    out = self.mgr_mod(op["mgr"]).get_backend()
+                except Exception as e:  # an observation that raises is an observation (it will not match the model)
+                    out = "raised:" + type(e).__name__
+                self.ret(h, out)
             elif k == "attr":
                 h = self.invoke(t, "attr", mgr="be")
-                self.ret(h, self.E["tl"].backend_name)
+                try:
+                    out = self.E["tl"].backend_name
+                except Exception as e:
+                    out = "raised:" + type(e).__name__
+                self.ret(h, out)
             elif k == "probe":
                 # fn 0/1: two different dispatched functions per manager, so that a per-function
                 # dispatch fault (stale per-name cache, static dispatch of a subset) is observable
@@ -337,13 +362,21 @@ class Run:
                 if op["mgr"] == "be":
                     ex = self.E["executed"].__dict__.setdefault("tags", [])
                     del ex[:]
-                    BE_PROBES[fn % len(BE_PROBES)](tl_, A, B)
-                    self.ret(h, ex[0] if ex else "numpy")
+                    try:
+                        BE_PROBES[fn % len(BE_PROBES)](tl_, A, B)
+                        out = ex[0] if ex else "numpy"
+                    except Exception as e:
+                        out = "raised:" + type(e).__name__
+                    self.ret(h, out)
                 else:
                     del t.probe_hits[:]
-                    TA_PROBES[fn % len(TA_PROBES)](ta_, A, B)
-                    hits = t.probe_hits
-                    self.ret(h, hits[0] if hits else "none")
+                    try:
+                        TA_PROBES[fn % len(TA_PROBES)](ta_, A, B)
+                        hits = t.probe_hits
+                        out = hits[0] if hits else "none"
+                    except Exception as e:
+                        out = "raised:" + type(e).__name__
+                    self.ret(h, out)
             elif k == "set":
                 self.do_set(t, op)
             elif k == "with":
@@ -367,7 +400,10 @@ class Run:
         """`current_backend()` as an observation of its own, then used as an instance argument."""
         h = self.invoke(t, "cur", mgr=mgr)
         inst = (self.E["BM"] if mgr == "be" else self.E["TM"]).current_backend()
-        tag = self.tag_of(mgr, inst)
+        try:
+            tag = self.tag_of(mgr, inst)
+        except Exception as e:
+            tag = "raised:" + type(e).__name__
         self.ret(h, tag)
         return tag, inst
 
